@@ -277,7 +277,7 @@ impl FormatSpec {
         // A conversion (`!r`) belongs to the replacement field, not to the format spec:
         // `format(1, "!r")` is a ValueError in CPython.
         let conversion = None;
-        let (mut fill, mut align, text) = parse_fill_and_align(text);
+        let (mut fill, align, text) = parse_fill_and_align(text);
         let (sign, text) = FormatSign::parse(text);
         let (alternate_form, text) = parse_alternate_form(text);
         let (zero, text) = parse_zero(text);
@@ -294,8 +294,9 @@ impl FormatSpec {
         }
 
         if zero && fill.is_none() {
+            // The alignment the `0` flag implies depends on the value: `=` for a number, the
+            // usual `<` for a string (see `number_align`).
             fill.replace('0');
-            align = align.or(Some(FormatAlign::AfterSign));
         }
 
         Ok(FormatSpec {
@@ -308,6 +309,16 @@ impl FormatSpec {
             grouping_option,
             precision,
             format_type,
+        })
+    }
+
+    /// The alignment of a number: the explicit one, else `=` under the `0` flag (a fill of '0'
+    /// without an alignment can only come from that flag), else right.
+    fn number_align(&self) -> FormatAlign {
+        self.align.unwrap_or(if self.fill == Some('0') {
+            FormatAlign::AfterSign
+        } else {
+            FormatAlign::Right
         })
     }
 
@@ -421,7 +432,7 @@ impl FormatSpec {
                 let magnitude_len = magnitude_str.len();
                 // the width drives zero padding only under sign-aware zero padding (`0` flag / `0=`)
                 let zero_padded =
-                    self.fill == Some('0') && self.align == Some(FormatAlign::AfterSign);
+                    self.fill == Some('0') && self.number_align() == FormatAlign::AfterSign;
                 let width = if zero_padded {
                     self.width.unwrap_or(magnitude_len) as i32 - prefix.len() as i32
                 } else {
@@ -556,7 +567,11 @@ impl FormatSpec {
             }
         };
         let magnitude_str = self.add_magnitude_separators(raw_magnitude_str?, sign_str);
-        self.format_sign_and_align(&AsciiStr::new(&magnitude_str), sign_str, FormatAlign::Right)
+        self.format_sign_and_align(
+            &AsciiStr::new(&magnitude_str),
+            sign_str,
+            self.number_align(),
+        )
     }
 
     #[inline]
@@ -632,7 +647,7 @@ impl FormatSpec {
         self.format_sign_and_align(
             &AsciiStr::new(&magnitude_str),
             &sign_prefix,
-            FormatAlign::Right,
+            self.number_align(),
         )
     }
 
@@ -648,6 +663,9 @@ impl FormatSpec {
                 }
                 if self.alternate_form {
                     return Err(FormatSpecError::NotAllowed("Alternate form (#)"));
+                }
+                if self.align == Some(FormatAlign::AfterSign) {
+                    return Err(FormatSpecError::NotAllowed("'=' alignment"));
                 }
                 // precision counts characters and applies before padding
                 let truncated: String = match self.precision {
